@@ -53,4 +53,10 @@ CHECKS["C20"] = dict(
     note="Trusts: counters = user class_check predicates (hook-free) plus the guarded hooks tm.miss / mtm.miss; predicates nested in value-dependent types are out of scope (Appendix A).",
     ref="5 C20")
 
+CHECKS["C03"] = dict(
+    technique="TLC model check of the argument analyser + generated entry point against Python's binding rule (MC_Entry: AcceptWhenPromised, ForwardIntact, NeverBadForward, NoDropKw) + TLA+ trace judge Trace_Entry over identity-level recordings of what every parameter received",
+    text="Entry.tla states Python's own binding of a call shape to a method signature and the documented acceptance rules (Doc) and transcribes the argument analyser and the generated entry point with its early-exit branches (Impl); TLC checks them against each other over every pair of signatures of a parameter menu and every call shape. On the real code every call uses distinct fresh objects, per-(method, parameter) default sentinels, per-method return sentinels and pre-built exceptions, so dropped keywords, foreign defaults, placeholders and altered results are distinguishable; Trace_Entry judges each recording.",
+    note="Trusts: identity tokens computed by the harness; MustAccept is the conservative reading of docs/usage.md; which method is selected is C02's concern. Three defects found here were fixed (keyword forwarding, strictly-positional rule, zero-argument calls).",
+    ref="5 C03")
+
 PENDING_REASON = "check not built yet in this round (planned, see DESIGN section 10)"
